@@ -111,6 +111,9 @@ class ScriptedErrorL1:
         return jnp.zeros(())
 
     def estimate_error_norm(self, state, previous, proposed, *, dt, atol, rtol, damp):
+        if not isinstance(atol, tuple):  # tolerances handed over in another order: observable deviation
+            self.log.emit("tolerances", jnp.zeros(()))
+            return jnp.asarray(self.default_ep, dtype=jnp.float64), state + 1.0
         tab_t, tab_dt, tab_ep = atol
         match = (tab_t == previous.t) & (tab_dt == dt)
         found = jnp.any(match)
@@ -295,6 +298,10 @@ def _hdr(solver_name, strat, initc, steps):
     )
 
 
+class ToleranceOrderError(Exception):
+    pass
+
+
 class L1Runner:
     """One (configuration, solver, strategy, mode): runs scripted histories through the real code on the tracing SSM."""
 
@@ -345,6 +352,8 @@ class L1Runner:
             TR.marker("offgrid", {"t": jnp.asarray(t / UNIT), "id": est.mean_flat})
             jax.effects_barrier()
         self.consumed = [consume_posterior(self, sol, **c) for c in consumers]
+        if any(name == "tolerances" for name, _ in self.log.events):
+            raise ToleranceOrderError("the adaptive driver did not pass atol / rtol to the error estimator in the documented order")
         if self.mode == "fixed_grid":
             ck = self.cfg["Ckpts"]
             steps = [{"t": ck[i], "h": ck[i + 1] - ck[i]} for i in range(len(ck) - 1)]
